@@ -57,6 +57,26 @@ CHECKS = {
    "The C01/C02/C07 universes plus every built-in with every argument shape (fields, literals, expression references in declared positions) up to weight 5 x 101 documents incl. all empty containers: every successful result is type-walked (no NaN/Inf, no internal object, no nil slice/map, no foreign Go type) and round-tripped through encoding/json.",
    "Domain restriction (expression references only in declared positions) decided by the reference evaluator. Bounded universes.",
    "DESIGN.md section 5 C16"),
+ "C03": ("M", "model_checking",
+   "exhaustive sentence enumeration; structural AST comparison against an independent canonical precedence parser, paren/whitespace variants judged by the model",
+   "Every grammatical token sequence up to 4 (thorough 6) tokens and every sentence of the operator fragment up to structural weight 5 (thorough 6): three whitespace styles and every redundant parenthesis pair the canonical parser P judges meaning-preserving must leave the implementation's AST (VerifRenderAST hook) unchanged; the implementation's AST is compared with P's AST and any difference must be confirmed by a distinguishing document (implementation result outside the reference outcome set) before it is reported, so a pure AST refactoring cannot alarm.",
+   "Trusted: canonical binding powers in model/parser.go (cross-checked against the CFG recogniser on all sequences up to 5 kinds; grounded on the compliance corpus). Equal parse implies equal result on all documents.",
+   "DESIGN.md section 5 C03"),
+ "C05": ("M", "model_checking",
+   "exhaustive byte-string / pumped-string / hostile-sentence enumeration with recover() and a per-case watchdog",
+   "All strings of up to 3 (thorough 5) symbols over a 50-symbol alphabet with one member per lexer character class and class boundary (incl. invalid UTF-8), the pumping family u^k v w^k up to 64 KiB, and grammar-generated sentences with hostile leaves (extreme integers, non-ASCII, invalid UTF-8) x 30 documents: Compile and Search must return.",
+   "Exhaustive only for the stated alphabet/length; panics attributed by innermost library frame; termination by a 120 s per-case watchdog (cases take microseconds).",
+   "DESIGN.md section 5 C05"),
+ "C14": ("M", "model_checking",
+   "exhaustive short-string / JSON-value enumeration through three independent escapings",
+   "All strings of up to 3 (thorough 4) symbols over a 24-symbol alphabet (quotes, backslash, escape letters, control characters, 2/3/4-byte runes): quoted identifiers in three JSON escapings select exactly the key, raw strings and backtick literals of a JSON value universe denote exactly the written value, unquoted-identifier recognition equals [A-Za-z_][A-Za-z0-9_]* on all strings of <=3 class symbols, whitespace styles leave the AST unchanged.",
+   "Escaping helpers are independent of encoding/json and cross-checked against it at run time.",
+   "DESIGN.md section 5 C14"),
+ "C17": ("M", "model_checking",
+   "exhaustive byte-string / token-sequence enumeration with contract invariants on (expression, error)",
+   "Over the C05 byte universe, all token sequences up to 4 (thorough 5) tokens in three styles and pumped strings: exactly one of (expression, error) non-nil; a returned expression is usable; a SyntaxError carries the input, 0<=Offset<=len and the exact caret rendering; MustCompile panics iff Compile fails, naming the quoted expression, else returns an equivalent AST.",
+   "Non-SyntaxError errors (JSON decoding, numeral range) are only required to be non-nil.",
+   "DESIGN.md section 5 C17"),
 }
 
 NOT_YET = {}
